@@ -39,7 +39,10 @@ def mutants(text):
         if not st or st.startswith(('//', '#', 'use ', 'pub use', '*', '/*')):
             off += len(line) + 1
             continue
+        decl = re.search(r'\b(impl|fn|struct|enum|trait|type|where)\b|->', st) is not None or st.endswith(',') and '<' in st and '(' not in st
         for rx, rep in RULES:
+            if decl and ('<' in rx or '>' in rx):
+                continue       # generics, not comparisons
             for m in re.finditer(rx, line):
                 new = line[:m.start()] + m.expand(rep) + line[m.end():]
                 out.append((ln + 1, line.strip(), new.strip(), text[:off] + new + text[off + len(line):]))
@@ -52,6 +55,22 @@ def mutants(text):
             if o != b:
                 new = text[:m.start()] + '%s: self.%s,' % (a, o) + text[m.end():]
                 out.append((text.count('\n', 0, m.start()) + 1, m.group(0), '%s: self.%s,' % (a, o), new))
+    # the wrong one of two similar fields used: `self.a` -> `self.b` for every other field of self mentioned within 12 lines
+    SELF = re.compile(r'\bself\.(\w+)\b(?!\s*\()')
+    for m in SELF.finditer(text[:body_end]):
+        a = m.group(1)
+        lo = text.rfind('\n', 0, m.start())
+        for _ in range(12):
+            lo = text.rfind('\n', 0, max(lo, 0))
+        hi = m.end()
+        for _ in range(12):
+            k = text.find('\n', hi + 1)
+            hi = k if k >= 0 else len(text)
+        for o in sorted(set(x.group(1) for x in SELF.finditer(text[max(lo, 0):hi]))):
+            if o != a and not FIELD.match(text[text.rfind(' ', 0, m.start() - 2) + 1:m.end() + 1] or ''):
+                new = text[:m.start()] + 'self.' + o + text[m.end():]
+                line = text[text.rfind('\n', 0, m.start()) + 1:text.find('\n', m.end())]
+                out.append((text.count('\n', 0, m.start()) + 1, line.strip(), 'self.%s -> self.%s' % (a, o), new))
     return out
 
 def main():
